@@ -11,6 +11,7 @@ import (
 	"math"
 	"math/rand"
 	"strconv"
+	"strings"
 	"unicode/utf8"
 )
 
@@ -138,7 +139,39 @@ func selfTest() int {
 		}
 		nutf++
 	}
-	fmt.Printf("selftest: fmtInt cases=%d parseInt cases=%d utf8 cases=%d failures=%d\n", nfmt, nparse, nutf, bad)
+	// strings.ToValidUTF8 / utf8.ValidString model against the real functions
+	nvalid := 0
+	for k := 0; k < 20000; k++ {
+		q := make([]byte, 1+rng.Intn(7))
+		for j := range q {
+			switch rng.Intn(5) {
+			case 0, 1:
+				q[j] = byte(rng.Intn(128))
+			case 2:
+				q[j] = byte(0x80 + rng.Intn(64))
+			default:
+				q[j] = byte(0xC0 + rng.Intn(64))
+			}
+		}
+		m := Model{}
+		ts := make([]*Term, len(q))
+		for i := range q {
+			ts[i] = Var(fmt.Sprintf("st_w%d_8", i), 8)
+			m[ts[i]] = uint64(q[i])
+		}
+		in := concolicInterp(m)
+		out, valid := in.toValidUTF8Sym(ts, []*Term{C(8, '?')})
+		got := make([]byte, len(out))
+		for i, t := range out {
+			got[i] = byte(evalTerm(t, m, map[*Term]uint64{}))
+		}
+		if want := strings.ToValidUTF8(string(q), "?"); string(got) != want || valid != utf8.Valid(q) {
+			fmt.Printf("SELFTEST FAIL ToValidUTF8(%x): got %x/%v want %x/%v\n", q, got, valid, want, utf8.Valid(q))
+			bad++
+		}
+		nvalid++
+	}
+	fmt.Printf("selftest: fmtInt cases=%d parseInt cases=%d utf8 cases=%d toValidUTF8 cases=%d failures=%d\n", nfmt, nparse, nutf, nvalid, bad)
 	if bad > 0 {
 		return 1
 	}
